@@ -521,6 +521,85 @@ pub struct InitCase {
     pub stray: u8,
 }
 
+/// The init segment a muxer built from this configuration returns (None: build refused / panic).
+pub fn init_bytes(c: &InitCase) -> Option<Vec<u8>> {
+    let seq = c.av1.normalised();
+    let f = FCfg {
+        codec: c.codec % 4,
+        width: c.width,
+        height: c.height,
+        sps: c.sps.clone(),
+        pps: c.pps.clone(),
+        vps: c.vps.clone(),
+        av1: obu(1, c.av1_obu.ext, c.av1_obu.ext_byte, true, c.av1_obu.leb_pad % 4, &seq.payload()),
+        vp9: c.vp9.clone(),
+        via_builder: c.via_builder,
+        timescale: 90000,
+        frag_ms: 2000,
+        stray: if c.via_builder { c.stray } else { 0 },
+    };
+    match run_frag(&f, &[FOp::Init]).results.first() {
+        Some(FRes::Init(b)) => Some(b.clone()),
+        _ => None,
+    }
+}
+
+/// Configurations that differ from `c` in exactly one field (another muxer in the same process must not inherit anything).
+pub fn twins(c: &InitCase) -> Vec<InitCase> {
+    let mut v = Vec::new();
+    let mut t = c.clone();
+    t.vp9.level = t.vp9.level.wrapping_add(1);
+    v.push(t);
+    let mut t = c.clone();
+    t.vp9.profile = (t.vp9.profile + 1) % 4;
+    v.push(t);
+    let mut t = c.clone();
+    t.vp9.full_range_flag ^= 1;
+    v.push(t);
+    let mut t = c.clone();
+    t.vp9.matrix_coefficients = (t.vp9.matrix_coefficients + 1) % 8;
+    v.push(t);
+    let mut t = c.clone();
+    t.width = if t.width > 16 { t.width - 2 } else { t.width + 2 };
+    v.push(t);
+    let mut t = c.clone();
+    if let Some(b) = t.sps.last_mut() {
+        *b ^= 0x10;
+    }
+    v.push(t);
+    let mut t = c.clone();
+    if let Some(b) = t.pps.last_mut() {
+        *b ^= 0x01;
+    }
+    v.push(t);
+    let mut t = c.clone();
+    if let Some(b) = t.vps.last_mut() {
+        *b ^= 0x04;
+    }
+    v.push(t);
+    let mut t = c.clone();
+    t.av1.w_m1 ^= 1;
+    v.push(t);
+    v
+}
+
+/// `eval_init` on the case and then, in the same thread, on each of its single-field twins.
+pub fn eval_init_twins(c: &InitCase) -> Outcome {
+    let mut o = eval_init(c);
+    if !o.violations.is_empty() || o.aborted_by_panic.is_some() {
+        return o;
+    }
+    for t in twins(c) {
+        let o2 = eval_init(&t);
+        o.sub_evals += 1;
+        if let Some(v) = o2.violations.into_iter().next() {
+            o.fail("twin", format!("twin.{}", v.sig), format!("a configuration that differs in one field from the one used just before in this thread: {}", v.detail));
+            break;
+        }
+    }
+    o
+}
+
 pub fn eval_init(c: &InitCase) -> Outcome {
     let mut o = Outcome::default();
     let codec = c.codec % 4;
@@ -877,6 +956,7 @@ pub fn def() -> PropertyDef {
             Box::new(PSub { name: "av1", quick: 15000, thorough: 600000, strat: s_av1, eval: eval_key }),
             Box::new(PSub { name: "vp9", quick: 8000, thorough: 300000, strat: s_vp9, eval: eval_key }),
             Box::new(PSub { name: "frag_init", quick: 10000, thorough: 300000, strat: s_init, eval: eval_init }),
+            Box::new(PSub { name: "frag_init_twins", quick: 1500, thorough: 40000, strat: s_init, eval: eval_init_twins }),
             Box::new(PSub { name: "audio", quick: 6000, thorough: 150000, strat: s_audio, eval: eval_audio }),
         ],
     }
